@@ -1,5 +1,3 @@
-//go:build !vsreal
-
 // Package fakenet provides net.Listener / net.Conn views of the model transport.
 package fakenet
 
